@@ -60,6 +60,9 @@ def akai_subject():
     sat_vals = sorted(set([0, 0xC000, 0x4000, 0x8000, 1, 2, 11385, 11386, 0xFFFF] + used))
     for sec in [0, 1, 2] + used + [used[-1] + 1, used[-1] + 2]:
         sites.append((f"sat[{sec}]", A.sat_word_offset(layout, 0, sec), 2, sat_vals + [sec], "sat"))
+    # the two last entries of the table (links among themselves, to the data, and out of range)
+    for sec in (A.SAT_N - 2, A.SAT_N - 1):
+        sites.append((f"sat[{sec}]", A.sat_word_offset(layout, 0, sec), 2, sat_vals + [A.SAT_N - 2, A.SAT_N - 1], "sat"))
     sites.append(("partition.size", layout["p0.size"][0], 2, [0, 1, 2, 3, 12, 0xFFFF], "hdr"))
     for vi in range(2):
         o = layout[f"p0.vol{vi}.entry"][0]
